@@ -4,7 +4,8 @@ from pyvc.driver import Unit, check_property
 from pyvc.values import *
 from pyvc.interp import RaiseEx
 from . import aw
-from .c10 import DistAlgebra
+from .c10 import DistAlgebra, DistCreate
+from .c16 import Ctor
 from .c12 import NodeStep
 
 BASE = "rex/base.py"
@@ -41,6 +42,16 @@ class StaticSample(Unit):
         R2 = ex.call(ex.getattr(new, "reset"), [rng], {})
         n2, s2 = ex.call(ex.getattr(R2, "sample"), [], {})
         ctx.ensure("C15 replay: reset to the original rng, then sample, gives the original delay and rng state", z3.And(toz(s2) == toz(s), toz(n2.f["rng"]) == toz(new.f["rng"])))
+        # StaticDist.create / mean / pdf: thin wrappers of the distrax object
+        cref = ex.module_global(ctx.repo.module(BASE), "StaticDist")
+        C1, C2 = ex.call(ex.getattr(cref, "create"), [dist], {}), ex.call(ex.getattr(cref, "create"), [dist], {})
+        ok = isinstance(C1, Rec) and C1.cls == "StaticDist" and isinstance(C2, Rec)
+        ctx.ensure("C15 create wraps the given distribution itself and starts every created distribution from the same fixed key (two creations of one distribution replay the same delays until reset)",
+                   z3.And(z3.BoolVal(ok and C1.f["dist"] is dist and C2.f["dist"] is dist), toz(C1.f["rng"]) == toz(C2.f["rng"])) if ok else z3.BoolVal(False))
+        if ok:
+            (_, a1), (_, a2) = ex.call(ex.getattr(C1, "sample"), [], {}), ex.call(ex.getattr(C2, "sample"), [], {})
+            ctx.ensure("C15 ... their first samples agree", toz(a1) == toz(a2))
+        ctx.ensure("mean is the wrapped distribution's mean", toz(ex.call(ex.getattr(D, "mean"), [], {})) == z3.Real("dist.mean"))
 
 
 class StaticQuantile(Unit):
@@ -278,7 +289,7 @@ class GmmRescale(Unit):
                    z3.And(toz(EXP(ex, ret[3])) == toz(EXP(ex, ls)) * std, toz(EXP(ex, ret[3])) > 0))
 
 
-UNITS = [StaticSample(), StaticQuantile(), DistAlgebra(), NodeStep(), GmmInit(), GmmGetDistDeterministic(), GmmRescale()]
+UNITS = [StaticSample(), StaticQuantile(), DistAlgebra(), DistCreate(), Ctor("BaseNode"), Ctor("Connection"), NodeStep(), GmmInit(), GmmGetDistDeterministic(), GmmRescale()]
 
 
 def check(tier, seed):
